@@ -1,7 +1,7 @@
 #!/bin/bash
 # confirm_seed.sh <ID> <N>: confirm an agent's seeded change in its own scratch worktree:
 #  demo passes without the patch, fails with it; the unedited suite is unchanged (146 passed / 5 failed) with the patch.
-ID=$1; N=$2; W=/tmp/mut/$ID
+ID=$1; N=$2; W=${MUT_ROOT:-/tmp/mut}/$ID
 cd $W || exit 2
 git checkout -q -- . ; git clean -fdq -e deliver -e target
 FEAT=""
